@@ -4,7 +4,7 @@
 
    A case is (problem (status (snap ...))); a snap is
      (kind lvl (trail) (model) (reasons) (assumptions) (conflict) (constraints) done reskind (learnt) unit (props) newlvl
-      nborig cp restarts)
+      nborig cp restarts (heap content) (heap indices))
    where a constraint is (card w1 l1 w2 l2 ...) in the order of the Go clause, a missing reason is ().
      kind 0: conflict handed to learnClause.     The state must meet the hypotheses of the theorems of
              Properties/C06l.v (state_okb, confl_okb) and learnClause must have returned what Model.Learn.learn_clause
@@ -60,15 +60,16 @@ Record snap := Snap {
   sn_kind : Z; sn_lvl : Z; sn_trail : list Z; sn_model : list Z; sn_reasons : list (option pbc);
   sn_assum : list bool; sn_confl : option pbc; sn_constrs : list pbc;
   sn_done : bool; sn_reskind : Z; sn_learnt : list Z; sn_unit : Z; sn_props : list Z; sn_newlvl : Z;
-  sn_norig : Z; sn_cp : bool; sn_restarts : Z }.
+  sn_norig : Z; sn_cp : bool; sn_restarts : Z; sn_heap : list Z; sn_hindex : list Z }.
 
 Definition dsnap (s : sx) : option snap :=
   match s with
-  | L [I kind; I lvl; tr; md; L rs; asm; cf; L cs; dn; I rk; lr; I u; pr; I nl; I no; cpf; I nrst] =>
-    match dZs tr, dZs md, omap dreason rs, dbools asm, dreason cf, omap dconstr cs, dbool dn, dZs lr, dZs pr, dbool cpf with
-    | Some tr', Some md', Some rs', Some asm', Some cf', Some cs', Some dn', Some lr', Some pr', Some cp' =>
-      Some (Snap kind lvl (dedup_trail [] tr') md' rs' asm' cf' cs' dn' rk lr' u pr' nl no cp' nrst)
-    | _, _, _, _, _, _, _, _, _, _ => None
+  | L [I kind; I lvl; tr; md; L rs; asm; cf; L cs; dn; I rk; lr; I u; pr; I nl; I no; cpf; I nrst; hc; hi] =>
+    match dZs tr, dZs md, omap dreason rs, dbools asm, dreason cf, omap dconstr cs, dbool dn, dZs lr, dZs pr, dbool cpf,
+          dZs hc, dZs hi with
+    | Some tr', Some md', Some rs', Some asm', Some cf', Some cs', Some dn', Some lr', Some pr', Some cp', Some hc', Some hi' =>
+      Some (Snap kind lvl (dedup_trail [] tr') md' rs' asm' cf' cs' dn' rk lr' u pr' nl no cp' nrst hc' hi')
+    | _, _, _, _, _, _, _, _, _, _, _, _ => None
     end
   | _ => None
   end.
@@ -210,7 +211,22 @@ Fixpoint first_not_quiet (norig : Z) (cp : bool) (md : list Z) (cs : list pbc) (
   | c :: r => if quiet_constr ((i <? norig) || negb cp) md c then first_not_quiet norig cp md r (i + 1) else Some i
   end.
 
+(* The decision heap at a quiet point meets the invariant that Properties/C01h.v proves preserved by every operation of
+   the search loop (hstate_ok): the elements of content are variables; indices[v] = z >= 0 implies content[z] = v; every
+   unbound variable is in content -- which is what makes "chooseLit() = -1" mean "every variable is bound".
+   (A snapshot without heap -- both lists empty although variables exist -- comes from a build without that hook field.) *)
+Definition heap_okb (md hc hi : list Z) : bool :=
+  let n := Z.of_nat (List.length md) in
+  forallb (fun v => (0 <=? v) && (v <? n) && (v <? Z.of_nat (List.length hi))) hc &&
+  forallb (fun p => let '(v, z) := p in
+                    (z <? 0) || (nth (Z.to_nat z) hc (-1) =? Z.of_nat v))
+          (combine (seq 0 (List.length hi)) hi) &&
+  forallb (fun p => let '(v, a) := p in negb (a =? 0) || existsb (Z.eqb (Z.of_nat v)) hc)
+          (combine (seq 0 (List.length md)) md).
+
 Definition judge_quiet_snap (sn : snap) : verdict :=
+  if match sn_heap sn, sn_hindex sn with [], [] => false | _, _ => negb (heap_okb (sn_model sn) (sn_heap sn) (sn_hindex sn)) end
+  then Fail "snap-heap-invariant" [sn_lvl sn; Z.of_nat (List.length (sn_heap sn))] else
   if negb (state_okb (sn_trail sn) (sn_model sn) (sn_reasons sn) (sn_assum sn) (sn_lvl sn))
   then Fail "snap-state-invariant" [2; sn_lvl sn]
   else match first_not_quiet (sn_norig sn) (sn_cp sn) (sn_model sn) (sn_constrs sn) 0 with
